@@ -5,7 +5,12 @@
 #ifndef N
 #define N 6
 #endif
-#define OUT_TOKENS (N + 8)
+/* -DFILL=n: the string starts with n concrete filler bytes ('a'); with n = 253 the formatted output crosses the 256-byte
+ * mark that a stack-buffer fast path would use (seeded change C18a5) while only N bytes stay symbolic */
+#ifndef FILL
+#define FILL 0
+#endif
+#define OUT_TOKENS (FILL + N + 8)
 #include "out_model.h"
 #include <stdlib.h>
 #include "out_redirect.h"
@@ -18,19 +23,27 @@ void harness(void)
 {
 	INPUT_ARRAY(u8, s, N + 1);
 	INPUT(u8, which);
-	static unsigned char buf[N + 1];
+	static unsigned char buf[FILL + N + 1];
 	unsigned i, len = N, seen_nul = 0, pre = 0;
 	int r = 0;
-	for (i = 0; i < N; ++i) { buf[i] = s[i]; if (!seen_nul && s[i] == 0) { len = i; seen_nul = 1; } }
-	buf[N] = 0;
+	for (i = 0; i < FILL; ++i) buf[i] = 'a';
+	for (i = 0; i < N; ++i) { buf[FILL + i] = s[i]; if (!seen_nul && s[i] == 0) { len = i; seen_nul = 1; } }
+	buf[FILL + N] = 0;
+	len += FILL;
 	ASSUME(which < 4);
-	if (which == 0) safe_output(stdout, buf);
+#ifdef WHICH_FIX
+	which = WHICH_FIX;     /* one call form per variant (token positions stay concrete) */
+#endif
+	/* only the public entry points are called (safe_output itself is file-static: reached through them) */
+	if (which == 0) r = safe_fprintf(stdout, "%s", buf);
 	else if (which == 1) r = safe_printf("%s", buf);
 	else if (which == 2) r = safe_fprintf(stderr, "%s", buf);
 	else { r = safe_printf(" -> %s", buf); pre = 4; }
 	CHECK(out_unprintable == 0, "C18: safe_output writes printable ASCII only");
 	CHECK(out_bytes == len + pre && out_n == len + pre, "C18: safe_output preserves the length of the string");
-	if (which != 0) CHECK(r == (int) (len + pre), "safe_printf returns the formatted length");
+	CHECK(r == (int) (len + pre), "safe_printf returns the formatted length");
+	for (i = 0; i < FILL; ++i) CHECK((out_tok[pre + i].meta & 0xff) == 'b' && out_tok[pre + i].value == 'a', "C18: printable bytes are written unchanged");
+	pre += FILL; len -= FILL;
 	for (i = 0; i < N; ++i) {
 		if (i < len) {
 			u8 c = s[i];
